@@ -204,6 +204,9 @@ func (s *Sched) accessAt(ptr unsafe.Pointer, loc string, write bool, skip int) {
 
 // Rd logs a read of *p (loc = "Type.field") and returns p; used by the access build.
 func Rd[T any](p *T, loc string) *T {
+	if s := cur; s != nil && s.cfg.AccessPoints && s.cur != nil && !s.aborting {
+		s.park(&op{kind: opBlock, obj: "access " + loc})
+	}
 	if s := cur; s != nil && s.races != nil {
 		s.access(unsafe.Pointer(p), loc, false)
 	}
@@ -212,6 +215,9 @@ func Rd[T any](p *T, loc string) *T {
 
 // Wr logs a write of *p and returns p.
 func Wr[T any](p *T, loc string) *T {
+	if s := cur; s != nil && s.cfg.AccessPoints && s.cur != nil && !s.aborting {
+		s.park(&op{kind: opBlock, obj: "access " + loc})
+	}
 	if s := cur; s != nil && s.races != nil {
 		s.access(unsafe.Pointer(p), loc, true)
 	}
